@@ -164,6 +164,18 @@ func (r *Result) Violate(key, msg string, replay any) {
 	}
 }
 
+// HasViolation reports whether a violation with this key is already recorded.
+func (r *Result) HasViolation(key string) bool {
+	r.mu.Lock()
+	defer r.mu.Unlock()
+	for _, v := range r.Violations {
+		if v.Key == key {
+			return true
+		}
+	}
+	return false
+}
+
 func (r *Result) NViolations() int {
 	r.mu.Lock()
 	defer r.mu.Unlock()
